@@ -1,18 +1,142 @@
-import GeffModel.MetaOps
-import GeffModel.SchemaSpec
+import GeffProofs.MetaRoundtrip
+import GeffProofs.MetaSchema
 import Gen.SchemaPublished
 import Gen.SchemaExported
-/-! # C08 — metadata survives serialisation and matches the published JSON schema (under construction) -/
+/-! # C08 — metadata survives serialisation and matches the published JSON schema
+
+*Every valid metadata object survives serialisation unchanged: through JSON text and through zarr
+attributes in either zarr format reading returns an equal object, and foreign attributes stored
+beside `geff` are preserved.  Its serialised form always validates against the published
+geff-schema.json, and the published schema gives the same verdict on every document as the schema
+exported from the Python model […].*
+
+Model: `dump` (= `model_dump(mode="json")`), `parse` (= `model_validate`), `writeAttrs` /
+`readAttrs` on an abstract attribute map (`GeffModel/Meta.lean`); schema syntax, parser and
+evaluator in `GeffModel/SchemaEval.lean`; the hand-written typed schema `Schema.Spec`
+(`GeffModel/SchemaSpec.lean`).  Tie: translators T2, T3, T4 (obligations below, re-checked by the
+kernel on every run) and the correspondence `harness/corr/C08.py` (which also cross-checks the
+evaluator against `jsonschema` on every dump and on single structural mutations).
+
+A JSON *text* is not modelled: encoding a document to text and decoding it again is the identity
+of the JSON library on JSON-native values (exercised by the correspondence); the models work on
+the document.  "Equal object" is pydantic's `==`: equal field values (the fields-set is not part
+of it — after a round trip every field is set). -/
+set_option autoImplicit false
 namespace GeffProps.C08
 open Geff.Meta Geff.Meta.Schema
 
-/-! ## Gen obligations (re-checked by the kernel whenever `geff-schema.json`, the pydantic models or
+/-! ## Gen obligations (re-checked whenever `geff-schema.json`, the pydantic models or
 `_valid_values.py` change) -/
 
-/-- the file shipped to other implementations parses to exactly the specified schema -/
+theorem gen_translation_ok :
+    Gen.SchemaPublished.translationOk = true ∧ Gen.SchemaExported.translationOk = true ∧
+    Gen.Schema.translationOk = true ∧ Gen.ValidValues.translationOk = true := by decide
+
+/-- the file shipped to other implementations parses to exactly the specified schema: same keywords,
+same enums (= the lists of `_valid_values.py`), same pattern (= `VERSION_PATTERN`), same required
+sets; no keyword outside the evaluator's vocabulary occurs in it -/
 theorem published_parses_to_spec : parseRoot parseFuel Gen.SchemaPublished.doc = some Spec.doc := by rfl
 
-/-- so does the schema exported by the working tree's pydantic models -/
+/-- so does the schema exported by the working tree's pydantic models (with `geff_version` required) -/
 theorem exported_parses_to_spec : parseRoot parseFuel Gen.SchemaExported.doc = some Spec.doc := by rfl
+
+/-- the model's dump has exactly the declared fields, in declaration order — at every level -/
+theorem gen_dump_fields (m : Meta) (a : Axis) (p : PropMeta) (r : RelatedObject) (h : DisplayHint) :
+    (dumpFields m).map (·.1) = Gen.Schema.geffMetadataFields.map (·.name) ∧
+    (match dumpAxis a with
+     | .obj kvs => kvs.map (·.1)
+     | _ => []) = Gen.Schema.axisFields.map (·.name) ∧
+    (match dumpProp p with
+     | .obj kvs => kvs.map (·.1)
+     | _ => []) = Gen.Schema.propMetadataFields.map (·.name) ∧
+    (match dumpRelated r with
+     | .obj kvs => kvs.map (·.1)
+     | _ => []) = Gen.Schema.relatedObjectFields.map (·.name) ∧
+    (match dumpHint h with
+     | .obj kvs => kvs.map (·.1)
+     | _ => []) = Gen.Schema.displayHintFields.map (·.name) := by
+  refine ⟨?_, ?_, ?_, ?_, ?_⟩ <;> rfl
+
+/-! ## The schema never drifts -/
+
+/-- **C08 (no drift)**: on *every* instance document — valid, invalid, mutated, anything — and for
+every interpretation of `pattern`, the published schema and the schema exported from the Python
+model give the same verdict. -/
+theorem C08_no_drift (mp : String → String → Bool) (inst : J) :
+    verdict mp Gen.SchemaPublished.doc inst = verdict mp Gen.SchemaExported.doc inst := by
+  unfold verdict
+  rw [published_parses_to_spec, exported_parses_to_spec]
+
+/-! ## Every dump validates -/
+
+/-- **C08 (dump validates)**: the serialised form `{"geff": dump m}` of every valid metadata value
+validates against the published `geff-schema.json`.  (`pattern` is interpreted by the same
+regular-expression engine `env.pat` that the model's version check uses.) -/
+theorem C08_dump_valid (env : Env) (m : Meta) (h : Valid env m) :
+    verdict env.pat Gen.SchemaPublished.doc (.obj [("geff", dump m)]) = true := by
+  unfold verdict
+  rw [published_parses_to_spec]
+  exact root_valid 3 h
+
+/-- the same under the invariant the code actually enforces (NaN bounds included) -/
+theorem C08_dump_valid_code (env : Env) (m : Meta) (h : ValidCode env m) :
+    verdict env.pat Gen.SchemaPublished.doc (.obj [("geff", dump m)]) = true := by
+  unfold verdict
+  rw [published_parses_to_spec]
+  exact root_valid 3 h
+
+/-! ## Serialisation round trips -/
+
+/-- **C08 (round trip through a document)**: parsing the dump of a valid metadata value succeeds and
+returns the same field values (and every field counts as set).  `NpFix`: the valid dtype names are
+fixed points of numpy's dtype-name normalisation (checked on every run). -/
+theorem C08_roundtrip (env : Env) (hnp : NpFix env) (m : Meta) (h : Valid env m) :
+    parse env (dump m) = .ok { val := m, fieldsSet := fieldNames } :=
+  parse_dump hnp ((valid_iff_validCode env m).1 h).1
+
+/-- **C08 (round trip through zarr attributes, foreign attributes preserved)**: writing into an
+attribute map — whatever it held, including a stale `geff` — and reading back returns the same
+value, and every attribute other than `geff` is what it was. -/
+theorem C08_attrs_roundtrip (env : Env) (hnp : NpFix env) (m : Meta) (h : Valid env m) (attrs : Attrs) :
+    readAttrs env (writeAttrs attrs m) = .ok { val := m, fieldsSet := fieldNames } ∧
+    ∀ k, k ≠ "geff" → lookup (writeAttrs attrs m) k = lookup attrs k :=
+  ⟨readAttrs_writeAttrs hnp ((valid_iff_validCode env m).1 h).1 attrs, fun k hk => foreign_attrs_kept attrs m k hk⟩
+
+/-- what is stored under `geff` is the dump, so `C08_dump_valid` applies to the stored attribute -/
+theorem C08_stored_attr_is_dump (m : Meta) (attrs : Attrs) : lookup (writeAttrs attrs m) "geff" = some (dump m) :=
+  lookup_setKey_same attrs "geff" (dump m)
+
+/-! ## non-vacuity -/
+
+def exEnv : Env :=
+  { pat := fun _ s => s == "1.3" || s == "0.3.1", npName := fun s => some s, defaultVersion := "1.3" }
+
+def exMeta : Meta :=
+  { geff_version := "0.3.1", directed := true,
+    axes := some [{ name := "x", type := some "space", unit := some "micrometer", min := some (.fin (-3) 1),
+                    max := some .pinf, scale := some (.fin 1 1), scaled_unit := some "nanometer" },
+                  { name := "t", type := some "time" }],
+    node_props_metadata := [("x", { identifier := "x", dtype := "float64" }),
+                            ("seg", { identifier := "seg", dtype := "uint64", varlength := true, name := some "Seg" })],
+    edge_props_metadata := [],
+    sphere := some "r", track_node_props := some [("lineage", "l")],
+    related_objects := some [{ type := "labels", path := "../seg", label_prop := some "seg" }],
+    display_hints := some { display_horizontal := "x", display_vertical := "x", display_time := some "t" },
+    extra := [("app", .obj [("k", .arr [.int 1, .flt (.fin 5 1), .null])])] }
+
+/-- the hypotheses of the theorems above hold for a non-trivial value -/
+example : Valid exEnv exMeta ∧ NpFix exEnv := ⟨by decide, fun _ _ => rfl⟩
+
+/-- the evaluator is not constantly `true`: dropping a required key, a wrong type, a bad enum value and
+an empty identifier are rejected by the published schema -/
+example :
+    verdict exEnv.pat Gen.SchemaPublished.doc (.obj [("geff", dump exMeta)]) = true ∧
+    verdict exEnv.pat Gen.SchemaPublished.doc (.obj [("geff", .obj ((dumpFields exMeta).drop 1))]) = false ∧
+    verdict exEnv.pat Gen.SchemaPublished.doc (.obj [("geff", dump { exMeta with geff_version := "abc" })]) = false ∧
+    verdict exEnv.pat Gen.SchemaPublished.doc
+      (.obj [("geff", dump { exMeta with axes := some [{ name := "x", type := some "foo" }], display_hints := none })]) = false ∧
+    verdict exEnv.pat Gen.SchemaPublished.doc
+      (.obj [("geff", dump { exMeta with node_props_metadata := [("", { identifier := "", dtype := "int8" })] })]) = false := by
+  refine ⟨?_, ?_, ?_, ?_, ?_⟩ <;> rfl
 
 end GeffProps.C08
